@@ -30,6 +30,8 @@ C = {
          "trusted: TLC, tokio paused clock; ReconnectError is classified by its Display text because the type is not re-exported", 'sim'),
  'C06': ("spec/TimeLimiter.tla: deadline = first poll + timeout (fixed or per request); the outer call resolves with the inner result at the instant it is available if that is before the deadline, with the timeout error exactly at the deadline otherwise (either at a tie); cancel mode drops the inner call in that same step, detached mode lets it run on and its completion is observed later. TLC explores 2-3 concurrent calls over timeouts {0,2,4, per-request}, latencies below/at/above/never, both modes. Generated behaviours and seeded random runs (also builder-call orders, and runs with a late-polling executor in cancel mode) execute in the real TimeLimiterLayer; every trace is validated.",
          "trusted: TLC, tokio paused clock and spawn; detached-mode ties are resolved by tokio::select! at random (both allowed); inner panics are outside the property's quantifier and not injected", 'sim'),
+ 'C12': ("spec/Hedge.tla: attempts are spawned tasks whose results arrive in completion order; at most max_hedged_attempts starts, hedge k starts exactly delay(k) after the previous start (all at once in parallel mode), the first success in arrival order wins at the instant it arrives, all-attempts-failed only when max attempts have started and all have failed (TLC invariants AttemptsLeMax, FailOnlyWhenAllFailed over max 1..3, fixed/zero/per-attempt delays, all latency/outcome vectors of 1-2 concurrent hedged calls). Generated behaviours and seeded random runs execute in the real HedgeLayer (spawned tasks under the simulator) and every trace is validated.",
+         "trusted: TLC, tokio paused clock, spawn and mpsc ordering; which error AllAttemptsFailed carries is not checked (the property does not say)", 'sim'),
 }
 def main():
     props = [json.loads(l) for l in open(os.path.join(ROOT, 'properties.jsonl'))]
